@@ -141,6 +141,10 @@ func (c *SpecCtx) evalGhost(e *SExpr, srt *Sort) *Term {
 			return c.X.E.IfaceNil()
 		case srt == SInt:
 			return c.X.E.TS.IntLit(0)
+		case srt == c.X.E.SliceS:
+			ts := c.X.E.TS
+			z := ts.IntLit(0)
+			return ts.Ctor(c.X.E.SliceS, z, z, z, z)
 		}
 	}
 	return c.eval(e).T
